@@ -115,6 +115,11 @@ template <int S> static void explore(Ctx &c, long &id) {
   const bool th = c.args.thorough();
   const int Nmax3 = th ? 8 : 5;
   std::vector<double> sigmas = th ? std::vector<double>{0.125, 1.0, 8.0} : std::vector<double>{1.0};
+  // beyond the stated scale range (0.1..10 s): the normalised metrics are scale-free and the pinned tree meets the same
+  // thresholds there, so small-N words are also run at extreme overall scales (catches absolute-threshold slips)
+  const std::vector<double> extreme = {0.015625, 64.0, 1024.0};
+  const size_t nreg = sigmas.size(); const int Nextreme = th ? 5 : 3;
+  sigmas.insert(sigmas.end(), extreme.begin(), extreme.end());
   for (int alpha = 0; alpha < (th ? 2 : 1); ++alpha) {
     double L[3]; for (int i = 0; i < 3; ++i) L[i] = letters(S)[i];
     if (alpha == 1) { Lcg g((uint64_t)c.args.seed * 77 + S); L[0] *= 1.0 + (1 + g.next() % 1000) / 16384.0; L[1] *= 1.0 + (1 + g.next() % 1000) / 16001.0; }
@@ -124,13 +129,14 @@ template <int S> static void explore(Ctx &c, long &id) {
       long nw = ipow(base, N);
       for (long w = 0; w < nw; ++w) for (size_t si = 0; si < sigmas.size(); ++si) {
         long my = id++;
+        if (si >= nreg && (N > Nextreme || alpha == 1)) continue;
         if (!c.mine(my)) continue;
         std::string unit = str(my);
         if (!c.begin(unit)) continue;
         std::vector<double> T(N);
         { long ww = w; for (int i = 0; i < N; ++i) { int l = ww % base; ww /= base; T[i] = (base == 3 ? L[l] : (l == 0 ? L[0] : L[2])) * sigmas[si]; } }
         Runner<S> r(c, unit);
-        bool kkt = (N <= (th ? 4 : 3)) && alpha == 0 && D <= 2;
+        bool kkt = (N <= (th ? 4 : 3)) && alpha == 0 && D <= 2 && si < nreg;
         r.run_case(N, T, kkt);
         ++c.st.evaluations;
         std::string key = fmt("S%d/a%d/N%d/w%ld/s%zu", S, alpha, N, w, si);
